@@ -80,6 +80,7 @@ func c14(ctx *Ctx) {
 		dnsFirst := r.Chance(60)
 		fastClosed := false
 		var maxWindow time.Duration // longest call so far, clock read before to clock read after
+		var prevDL time.Time
 		for j := 0; j < nops; j++ {
 			if r.Chance(30) {
 				time.Sleep(time.Duration(r.Intn(3)) * time.Millisecond)
@@ -130,6 +131,12 @@ func c14(ctx *Ctx) {
 			}
 			obs = append(obs, fmt.Sprintf("(%d, %d)", rel(dl), (5*time.Millisecond+maxWindow).Nanoseconds()))
 			sample = append(sample, opj{isWrite, dns, rel(now), rel(dl)})
+			// monitor: a client datagram never moves the deadline earlier (only the DNS fast close, on
+			// a read, brings it forward)
+			if isWrite && !prevDL.IsZero() && dl.Before(prevDL.Add(-time.Millisecond)) {
+				ctx.Monitor("C14/deadline-moved-earlier", fmt.Sprintf("a %s datagram moved the socket deadline %v earlier", map[bool]string{true: "DNS", false: "non-DNS"}[dns], prevDL.Sub(dl)), sample)
+			}
+			prevDL = dl
 			// monitor: the property's promise, independently
 			if isWrite {
 				want := T
